@@ -1,5 +1,7 @@
 import Mkdb.Proofs.Wal
 import Mkdb.Proofs.CrashPrefix
+import Mkdb.Proofs.CrashBytes5
+import Mkdb.Proofs.PtSelfFree5
 /-!
 # C03 — a crash while a statement is being logged leaves a row-prefix state
 
@@ -16,6 +18,17 @@ every other table is untouched, with the row-id counter advanced by exactly the 
 Scenario of these theorems: no page of the history reached the data file since `db0` (the append
 of a statement's records happens before the flusher can run on its pages; flushes between earlier
 statements are the subject of C02/C04).
+Third part (`C03_*_byte_cut_*`, `C03_engine_records_well_formed`): the two halves composed through the
+concrete bytes of the very records the engine logs - for EVERY byte position of the statement's append,
+what `wal.read` (`Wal.readLog`) returns from the cut file is the acknowledged log plus the first `k`
+records of the statement, the file it leaves is the file of exactly these records, and replaying them
+gives a row-prefix state.  The only added hypotheses are that the three counters of the store the
+statement leaves in memory are values of their Go types (`uint64`, `uint64`, `uint32`).
+The side conditions `hself` (`PtSelf`: the row the page table holds about itself names a page of the page
+table - also after the page table has split and that row is stale) and `hf` (`FreshM`: every page of every
+user table is older than the LSN counter) of the storage theorems are invariants of every database a
+history reaches from CREATE DATABASE (`C02_side_conditions_hold_in_every_reachable_database`); the
+witness `C03_torn_insert_with_a_split_page_table` is a database with eight tables.
 -/
 namespace Mkdb.Wal
 
@@ -141,5 +154,249 @@ theorem C03_log_cut_is_statement_prefix (sch : Levels) {s0 sN : Store} {tbls tbl
        (logsK = logs.take (k + 1) ∧ k + 1 ≤ logs.length ∧ PtRestamp ptR ptK ∧
          ∃ table cols vals, (stmts.take j).getLast? = some (.ins table cols vals))) :=
   replay_prefix sch run pt h hself hf k hk
+
+/-- **C03.torn_insert_with_a_split_page_table** (witness in the region the hypothesis `PtSelf` excluded
+until W10; every state is an output of the model).  `db8` is the database after `CREATE DATABASE` and
+eight `CREATE TABLE tN (a INT)`: checkpointed, its page table has split and the row the page table holds
+about itself is stale (`¬ PtSelfRoot`).  The append of the ten log records of `INSERT INTO t1 VALUES (1),
+…, (9)` (`db9.wal`: nine INSERT records, then the UPDATE record of the catalog row, because the ninth
+row moved the root of `t1`) is cut after ANY number `k` of records.  The surviving records replayed on
+the store before the statement end without error in a store that abstracts to a plain database where
+`t1` holds a row prefix `(1), …, (j)` - a state `Spec.rowPrefixStates` lists - every other table is
+untouched and the row-id counter advanced by `j`.  For `k = 9` the INSERT record that moved the root has
+survived without its catalog record: the replay itself re-points the catalog row of `t1`, found by its
+old offset in a page table that also holds the stale row `(sys_pages, 4096)`. -/
+theorem C03_torn_insert_with_a_split_page_table (k : Nat) : ∃ sch8 pt8 tbls8,
+    Ckpt sch8 db8 sdb8 pt8 tbls8 ∧ ¬ PtSelfRoot pt8 ∧
+    ∃ rK ptR tblsK sdbK stK j,
+      replayAll (db9.wal.take k) db8.store = (rK, none, false) ∧
+      AbsV rK ptR sch8 tblsK sdbK ∧
+      Spec.findTable sdbK [116, 49] = some stK ∧
+      (([116, 49] : Bytes), stK.rows.map (·.vals)) ∈ Spec.rowPrefixStates sdb8 (.insert [116, 49] [] lrows9) ∧
+      (∀ n, n ≠ ([116, 49] : Bytes) → Spec.findTable sdbK n = Spec.findTable sdb8 n) ∧
+      j ≤ 9 ∧ rK.hdr.lastKey = db8.store.hdr.lastKey + j :=
+  split_page_table_torn_insert k
+
+end Mkdb.Store
+
+/-! ## the two halves composed: a cut at any byte of the statement's append -/
+
+namespace Mkdb.Store
+open Mkdb.Engine Mkdb.Tree Mkdb.Page Mkdb.Tuple Mkdb.Generated
+
+/-- **C03.engine_records_well_formed**: after a history of acknowledged statements (`SpecRun`) from a
+database with an empty log and one more accepted statement `e` (INSERT, DELETE or UPDATE, `step`), the
+log is the log before the statement followed by the statement's records, and every record in it,
+converted field by field to a record of the log file (`toRec`), fits the wire types of `WALEntry`
+(`Wal.Rec.wf`: op < 256, lsn < 2^64, page < 2^64, cell < 2^32, value shorter than 2^32 - 25).
+Hypotheses: the LSN counter, the allocation frontier and the row-id counter of the store the statement
+leaves are values of their Go types (`_nextLSN uint64`, `nextFreeOffset uint64`, `lastKey uint32`) -
+this excludes only a wrap-around of these counters, which the model (natural numbers) does not have.
+Values need no hypothesis: they passed the size check (`maxValueSize` = 400). -/
+theorem C03_engine_records_well_formed (sch : Levels) {db0 dbN dbC : Engine.DB} {sdb0 sdbN sdbC : Spec.SDB}
+    {stmts : List EStmt} {e : EStmt}
+    (run : SpecRun sch db0 sdb0 stmts dbN sdbN) (step : SpecRun sch dbN sdbN [e] dbC sdbC)
+    (hwal : db0.wal = [])
+    (pt : Levels) (tbls : List (Bytes × Levels)) (hA : AbsV db0.store pt sch tbls sdb0)
+    (hlsn : dbC.store.hdr.nextLSN < 2 ^ 64) (hnf : dbC.store.hdr.nextFree < 2 ^ 64)
+    (hlk : dbC.store.hdr.lastKey < 2 ^ 32) :
+    dbC.wal = dbN.wal ++ dbC.wal.drop dbN.wal.length ∧ ∀ r ∈ dbC.wal, (toRec r).wf :=
+  stmt_wal_wf sch run step hwal pt tbls hA (Nat.le_of_lt hlsn) (Nat.le_of_lt hnf) hlk
+
+/-- **C03.insert_byte_cut_leaves_row_prefix**: hypotheses of `C03_insert_crash_leaves_row_prefix`, and
+the three counters of the store the INSERT leaves in memory are values of their Go types.  `walFile l`
+is the log file holding the records `l` (`Wal.encodeLog` of their `toRec`); the crash leaves of the
+file `walFile dbC.wal` the bytes of the acknowledged log `walFile dbN.wal` and the first `cut` bytes of
+what the statement appended - for EVERY `cut`, also inside a length prefix or a record body, or beyond
+the end.  Then all records are well formed and there is a `k` (the one of `C03_cut_is_prefix`: the first
+`k` frames of the statement lie inside the `cut` bytes, the next one does not) such that
+* `wal.read` returns exactly the acknowledged records followed by the first `k` records of the
+  statement, flagged torn exactly when the cut is inside a frame;
+* the file the reader leaves after truncating the torn tail is exactly the file of these records, so
+  that anything appended later (`more`: the records of statements issued after the recovery) is read
+  back right behind them;
+* replaying these records on the store the history started from gives a row-prefix state: the
+  conclusion of `C03_insert_crash_leaves_row_prefix`, verbatim, for this `k`. -/
+theorem C03_insert_byte_cut_leaves_row_prefix (sch : Levels) {db0 dbN : Engine.DB} {sdb0 sdbN : Spec.SDB}
+    {stmts : List EStmt} (run : SpecRun sch db0 sdb0 stmts dbN sdbN) (hwal : db0.wal = [])
+    (pt : Levels) (tbls : List (Bytes × Levels)) (hA : AbsV db0.store pt sch tbls sdb0)
+    (hself : PtSelf pt) (hf : FreshM db0.store tbls)
+    (table : Bytes) (cols : List Bytes) (lrows : List (List Sql.Lit))
+    (hvalid : ∀ r ∈ lrows.map (fun r => r.map Spec.litVal), ∀ v ∈ r, ValidVal v) (sdbC : Spec.SDB)
+    (hspec : Spec.specInsert sdbN table cols (lrows.map fun r => r.map Spec.litVal) = some sdbC)
+    (hrunok : ∀ pt tbls t schema, AbsV dbN.store pt sch tbls sdbN → (table, t) ∈ tbls →
+      schemaOf sch table = some schema →
+      InsRunOK schema (cols.map Engine.bytesToName) t dbN.store.hdr.lastKey dbN.store.hdr.nextLSN
+        dbN.store.hdr.nextFree (lrows.map fun r => r.map Spec.litVal))
+    (n : Nat) (dbC : Engine.DB)
+    (heval : Engine.evalInsert dbN table cols (lrows.map fun r => r.map Spec.litVal) = .ok n dbC)
+    (hlsn : dbC.store.hdr.nextLSN < 2 ^ 64) (hnf : dbC.store.hdr.nextFree < 2 ^ 64)
+    (hlk : dbC.store.hdr.lastKey < 2 ^ 32) (cut : Nat) :
+    (∀ r ∈ dbC.wal, (toRec r).wf) ∧
+    ∃ k torn,
+      (k ≤ (dbC.wal.drop dbN.wal.length).length ∧
+       Wal.readLog ((walFile dbC.wal).take ((walFile dbN.wal).length + cut))
+         = .ok ((dbN.wal ++ (dbC.wal.drop dbN.wal.length).take k).map toRec)
+             (walFile (dbN.wal ++ (dbC.wal.drop dbN.wal.length).take k)).length torn ∧
+       (walFile ((dbC.wal.drop dbN.wal.length).take k)).length ≤ cut ∧
+       (k < (dbC.wal.drop dbN.wal.length).length →
+         cut < (walFile ((dbC.wal.drop dbN.wal.length).take (k+1))).length) ∧
+       (torn = true ↔ (walFile ((dbC.wal.drop dbN.wal.length).take k)).length <
+         min cut (walFile (dbC.wal.drop dbN.wal.length)).length) ∧
+       Wal.afterRead ((walFile dbC.wal).take ((walFile dbN.wal).length + cut))
+         = walFile (dbN.wal ++ (dbC.wal.drop dbN.wal.length).take k) ∧
+       ∀ more : List Wal.Rec, (∀ r ∈ more, r.wf) →
+         Wal.readLog (Wal.afterRead ((walFile dbC.wal).take ((walFile dbN.wal).length + cut)) ++
+             Wal.encodeLog more)
+           = .ok ((dbN.wal ++ (dbC.wal.drop dbN.wal.length).take k).map toRec ++ more)
+               (Wal.encodeLog ((dbN.wal ++ (dbC.wal.drop dbN.wal.length).take k).map toRec ++ more)).length
+               false) ∧
+      ∃ rK ptR tblsK sdbK stK j,
+        replayAll (dbN.wal ++ (dbC.wal.drop dbN.wal.length).take k) db0.store = (rK, none, false) ∧
+        AbsV rK ptR sch tblsK sdbK ∧
+        Spec.findTable sdbK table = some stK ∧
+        (table, stK.rows.map (·.vals)) ∈ Spec.rowPrefixStates sdbN (.insert table cols lrows) ∧
+        (∀ n, n ≠ table → Spec.findTable sdbK n = Spec.findTable sdbN n) ∧
+        j ≤ lrows.length ∧ rK.hdr.lastKey = dbN.store.hdr.lastKey + j :=
+  insert_byte_cut sch run hwal pt tbls hA hself hf table cols lrows hvalid sdbC hspec hrunok n dbC heval
+    (Nat.le_of_lt hlsn) (Nat.le_of_lt hnf) hlk cut
+
+/-- non-vacuity, on the database the model computes for `CREATE DATABASE; CREATE TABLE t (a INT)`
+(`tableDB`): `INSERT INTO t VALUES (5), (6)` logs two records of 34 bytes; the file cut after 54 bytes
+(16 bytes into the 30-byte body of the second record) is read as the first record, torn, and truncated
+to it; replaying it gives the table with exactly the row `(5)` (`sdbA5`), row-id counter 11 -/
+example : ∃ db1 rK ptR tblsK,
+    Engine.evalInsert tableDB tname [] [[.int 5], [.int 6]] = .ok 2 db1 ∧
+    db1.wal = [recT1, recT2] ∧ (walFile db1.wal).length = 68 ∧
+    (∀ r ∈ db1.wal, (toRec r).wf) ∧
+    ByteCut tableDB.wal db1.wal 54 1 true ∧
+    Wal.readLog ((walFile db1.wal).take 54) = .ok [toRec recT1] 34 true ∧
+    Wal.afterRead ((walFile db1.wal).take 54) = walFile [recT1] ∧
+    replayAll [recT1] tableDB.store = (rK, none, false) ∧
+    AbsV rK ptR schT tblsK sdbA5 ∧ rK.hdr.lastKey = 11 := byte_cut_example
+
+/-- **C03.delete_byte_cut_leaves_row_prefix**: likewise for DELETE, with the hypotheses and the
+conclusion of `C03_delete_crash_leaves_row_prefix`. -/
+theorem C03_delete_byte_cut_leaves_row_prefix (sch : Levels) {db0 dbN : Engine.DB} {sdb0 sdbN : Spec.SDB}
+    {stmts : List EStmt} (run : SpecRun sch db0 sdb0 stmts dbN sdbN) (hwal : db0.wal = [])
+    (pt : Levels) (tbls : List (Bytes × Levels)) (hA : AbsV db0.store pt sch tbls sdb0)
+    (hself : PtSelf pt) (hf : FreshM db0.store tbls)
+    (table : Bytes) (w : Option Sql.Cond) (sdbC : Spec.SDB)
+    (hspec : Spec.specDelete sdbN table w = some sdbC)
+    (n : Nat) (dbC : Engine.DB) (heval : Engine.evalDelete dbN table w = .ok n dbC)
+    (hlsn : dbC.store.hdr.nextLSN < 2 ^ 64) (hnf : dbC.store.hdr.nextFree < 2 ^ 64)
+    (hlk : dbC.store.hdr.lastKey < 2 ^ 32) (cut : Nat) :
+    (∀ r ∈ dbC.wal, (toRec r).wf) ∧
+    ∃ k torn,
+      (k ≤ (dbC.wal.drop dbN.wal.length).length ∧
+       Wal.readLog ((walFile dbC.wal).take ((walFile dbN.wal).length + cut))
+         = .ok ((dbN.wal ++ (dbC.wal.drop dbN.wal.length).take k).map toRec)
+             (walFile (dbN.wal ++ (dbC.wal.drop dbN.wal.length).take k)).length torn ∧
+       (walFile ((dbC.wal.drop dbN.wal.length).take k)).length ≤ cut ∧
+       (k < (dbC.wal.drop dbN.wal.length).length →
+         cut < (walFile ((dbC.wal.drop dbN.wal.length).take (k+1))).length) ∧
+       (torn = true ↔ (walFile ((dbC.wal.drop dbN.wal.length).take k)).length <
+         min cut (walFile (dbC.wal.drop dbN.wal.length)).length) ∧
+       Wal.afterRead ((walFile dbC.wal).take ((walFile dbN.wal).length + cut))
+         = walFile (dbN.wal ++ (dbC.wal.drop dbN.wal.length).take k) ∧
+       ∀ more : List Wal.Rec, (∀ r ∈ more, r.wf) →
+         Wal.readLog (Wal.afterRead ((walFile dbC.wal).take ((walFile dbN.wal).length + cut)) ++
+             Wal.encodeLog more)
+           = .ok ((dbN.wal ++ (dbC.wal.drop dbN.wal.length).take k).map toRec ++ more)
+               (Wal.encodeLog ((dbN.wal ++ (dbC.wal.drop dbN.wal.length).take k).map toRec ++ more)).length
+               false) ∧
+      ∃ rK ptK tblsK sdbK stK,
+        replayAll (dbN.wal ++ (dbC.wal.drop dbN.wal.length).take k) db0.store = (rK, none, false) ∧
+        AbsV rK ptK sch tblsK sdbK ∧
+        Spec.findTable sdbK table = some stK ∧
+        (table, stK.rows.map (·.vals)) ∈ Spec.rowPrefixStates sdbN (.delete table w) ∧
+        (∀ n, n ≠ table → Spec.findTable sdbK n = Spec.findTable sdbN n) ∧
+        rK.hdr.lastKey = dbN.store.hdr.lastKey ∧ rK.hdr.nextFree = dbN.store.hdr.nextFree :=
+  delete_byte_cut sch run hwal pt tbls hA hself hf table w sdbC hspec n dbC heval
+    (Nat.le_of_lt hlsn) (Nat.le_of_lt hnf) hlk cut
+
+/-- non-vacuity: on `tableDB`, after the acknowledged `INSERT INTO t VALUES (5), (6)` and
+`UPDATE t SET a = 7 WHERE a = 5` (three records), `DELETE FROM t WHERE a = 6` appends one record of 29
+bytes; position 40 behind the history is beyond the end: all four records are read, not torn -/
+example : ∃ db2 db3,
+    SpecRun schT tableDB sdbA0 [.insert tname [] [[.int 5], [.int 6]],
+      .update tname [([97], .lit (.int 7))] (some (condEq 5))] db2 sdbA2 ∧
+    Engine.evalDelete db2 tname (some (condEq 6)) = .ok 1 db3 ∧
+    db2.wal = [recT1, recT2, recT3] ∧ db3.wal = [recT1, recT2, recT3, recT4] ∧
+    (∀ r ∈ db3.wal, (toRec r).wf) ∧
+    ByteCut db2.wal db3.wal 40 1 false ∧
+    ∃ rK ptK tblsK sdbK stK,
+      replayAll [recT1, recT2, recT3, recT4] tableDB.store = (rK, none, false) ∧
+      AbsV rK ptK schT tblsK sdbK ∧
+      Spec.findTable sdbK tname = some stK ∧
+      (tname, stK.rows.map (·.vals)) ∈ Spec.rowPrefixStates sdbA2 (.delete tname (some (condEq 6))) :=
+  delete_byte_cut_example
+
+/-- **C03.update_byte_cut_leaves_row_prefix**: likewise for UPDATE, with the hypotheses and the
+conclusion of `C03_update_crash_leaves_row_prefix`. -/
+theorem C03_update_byte_cut_leaves_row_prefix (sch : Levels) {db0 dbN : Engine.DB} {sdb0 sdbN : Spec.SDB}
+    {stmts : List EStmt} (run : SpecRun sch db0 sdb0 stmts dbN sdbN) (hwal : db0.wal = [])
+    (pt : Levels) (tbls : List (Bytes × Levels)) (hA : AbsV db0.store pt sch tbls sdb0)
+    (hself : PtSelf pt) (hf : FreshM db0.store tbls)
+    (table : Bytes) (sets : List (Bytes × Sql.VExpr)) (w : Option Sql.Cond)
+    (hvalid : ∀ p ∈ sets, ∀ l, p.2 = .lit l → ValidVal (Engine.litToVal l)) (sdbC : Spec.SDB)
+    (hspec : Spec.specUpdate sdbN table sets w = some sdbC)
+    (dbC : Engine.DB) (heval : Engine.evalUpdate dbN table sets w = .ok () dbC)
+    (hlsn : dbC.store.hdr.nextLSN < 2 ^ 64) (hnf : dbC.store.hdr.nextFree < 2 ^ 64)
+    (hlk : dbC.store.hdr.lastKey < 2 ^ 32) (cut : Nat) :
+    (∀ r ∈ dbC.wal, (toRec r).wf) ∧
+    ∃ k torn,
+      (k ≤ (dbC.wal.drop dbN.wal.length).length ∧
+       Wal.readLog ((walFile dbC.wal).take ((walFile dbN.wal).length + cut))
+         = .ok ((dbN.wal ++ (dbC.wal.drop dbN.wal.length).take k).map toRec)
+             (walFile (dbN.wal ++ (dbC.wal.drop dbN.wal.length).take k)).length torn ∧
+       (walFile ((dbC.wal.drop dbN.wal.length).take k)).length ≤ cut ∧
+       (k < (dbC.wal.drop dbN.wal.length).length →
+         cut < (walFile ((dbC.wal.drop dbN.wal.length).take (k+1))).length) ∧
+       (torn = true ↔ (walFile ((dbC.wal.drop dbN.wal.length).take k)).length <
+         min cut (walFile (dbC.wal.drop dbN.wal.length)).length) ∧
+       Wal.afterRead ((walFile dbC.wal).take ((walFile dbN.wal).length + cut))
+         = walFile (dbN.wal ++ (dbC.wal.drop dbN.wal.length).take k) ∧
+       ∀ more : List Wal.Rec, (∀ r ∈ more, r.wf) →
+         Wal.readLog (Wal.afterRead ((walFile dbC.wal).take ((walFile dbN.wal).length + cut)) ++
+             Wal.encodeLog more)
+           = .ok ((dbN.wal ++ (dbC.wal.drop dbN.wal.length).take k).map toRec ++ more)
+               (Wal.encodeLog ((dbN.wal ++ (dbC.wal.drop dbN.wal.length).take k).map toRec ++ more)).length
+               false) ∧
+      ∃ rK ptK tblsK sdbK stK,
+        replayAll (dbN.wal ++ (dbC.wal.drop dbN.wal.length).take k) db0.store = (rK, none, false) ∧
+        AbsV rK ptK sch tblsK sdbK ∧
+        Spec.findTable sdbK table = some stK ∧
+        (table, stK.rows.map (·.vals)) ∈ Spec.rowPrefixStates sdbN (.update table sets w) ∧
+        (∀ n, n ≠ table → Spec.findTable sdbK n = Spec.findTable sdbN n) ∧
+        rK.hdr.lastKey = dbN.store.hdr.lastKey ∧ rK.hdr.nextFree = dbN.store.hdr.nextFree :=
+  update_byte_cut sch run hwal pt tbls hA hself hf table sets w hvalid sdbC hspec dbC heval
+    (Nat.le_of_lt hlsn) (Nat.le_of_lt hnf) hlk cut
+
+/-- non-vacuity: on `tableDB`, after the acknowledged `INSERT INTO t VALUES (5), (6)` (two records, 68
+bytes), `UPDATE t SET a = 7 WHERE a = 5` appends one record of 34 bytes; the file cut 20 bytes into it
+is read as the two records of the history, torn; replaying them gives a row-prefix state of the UPDATE
+(no row rewritten), row-id counter 12 -/
+example : ∃ db1 db2,
+    SpecRun schT tableDB sdbA0 [.insert tname [] [[.int 5], [.int 6]]] db1 sdbA1 ∧
+    Engine.evalUpdate db1 tname [([97], .lit (.int 7))] (some (condEq 5)) = .ok () db2 ∧
+    db1.wal = [recT1, recT2] ∧ db2.wal = [recT1, recT2, recT3] ∧
+    (∀ r ∈ db2.wal, (toRec r).wf) ∧
+    ByteCut db1.wal db2.wal 20 0 true ∧
+    ∃ rK ptK tblsK sdbK stK,
+      replayAll [recT1, recT2] tableDB.store = (rK, none, false) ∧
+      AbsV rK ptK schT tblsK sdbK ∧
+      Spec.findTable sdbK tname = some stK ∧
+      (tname, stK.rows.map (·.vals)) ∈
+        Spec.rowPrefixStates sdbA1 (.update tname [([97], .lit (.int 7))] (some (condEq 5))) ∧
+      rK.hdr.lastKey = 12 := update_byte_cut_example
+
+/-- non-vacuity of `C03_engine_records_well_formed`: the history INSERT, then the UPDATE, on `tableDB` -/
+example : ∃ db1 db2,
+    SpecRun schT tableDB sdbA0 [.insert tname [] [[.int 5], [.int 6]]] db1 sdbA1 ∧
+    SpecRun schT db1 sdbA1 [.update tname [([97], .lit (.int 7))] (some (condEq 5))] db2 sdbA2 ∧
+    db2.store.hdr = ⟨12, 4096, 16384, 13⟩ ∧ db2.wal.map toRec = [toRec recT1, toRec recT2, toRec recT3] := by
+  obtain ⟨db1, db2, _, run1, e2, _, _, _, hw2, hh2, _⟩ := historyT
+  exact ⟨db1, db2, run1, .update _ _ _ validSet7 specA2 e2 (.nil db2 sdbA2), hh2, by rw [hw2]; rfl⟩
 
 end Mkdb.Store
